@@ -117,6 +117,47 @@ pub fn run(ctx: &'static Ctx) {
     run_names("names: every character-width window at every alignment (stand-alone entities)", "x^p . W . y^t with p in 52..=66, t in {0,1,5,200}, W = every sequence of extreme code points of widths 1-4 up to the window bound", &alone_names, &[0, 1, 5, 200]);
     run_names("names: every window inside MakeCredential and CredentialManagement", "same windows and alignments, t in {0, 5}", &msg_names, &[0, 5]);
 
+    // (1b) characters with special roles (joiners, variation selectors, combining marks, BOM,
+    // directional marks, noncharacters) next to each other and to every width, at every alignment
+    let specials: [char; 10] = ['\u{200d}', '\u{fe0f}', '\u{301}', '\u{feff}', '\u{200f}', '\u{fffe}', '\u{2764}', '\u{1f525}', '\u{1f3f3}', '\u{e0067}'];
+    let mut pool: Vec<char> = CHARS.to_vec();
+    pool.extend(specials);
+    let mut swins: Vec<String> = Vec::new();
+    for a in &pool {
+        for b in &specials {
+            for c in &pool {
+                let mut w = String::new();
+                w.push(*a);
+                w.push(*b);
+                w.push(*c);
+                swins.push(w.clone());
+                w.push(*b);
+                swins.push(w);
+            }
+        }
+    }
+    let all_names2: Vec<&Slot> = name_slots.iter().collect();
+    let rad1b = [all_names2.len() as u64, swins.len() as u64, 16, 2];
+    let swr = &swins;
+    sweep(ctx, "names: special-role characters around the cut", product(&rad1b), "x^p . (a s b [s]) . y^t with s a joiner / variation selector / combining mark / BOM / directional mark / noncharacter / emoji, a and b from the whole pool, p in 50..=65, t in {0, 9}, every name member", move |idx, l| {
+        let mut d = [0u64; 4];
+        unrank(idx, &rad1b, &mut d);
+        let slot = all_names2[d[0] as usize];
+        let mut s = "x".repeat(50 + d[2] as usize);
+        s.push_str(&swr[d[1] as usize]);
+        s.push_str(&"y".repeat(if d[3] == 0 { 0 } else { 9 }));
+        let seed = &sr[slot.seed];
+        let wire = treewalk::replaced(&seed.wire, &slot.path, V::t(&s));
+        if s.len() > 64 {
+            l.nontrivial += 1;
+        }
+        l.bump(if s.len() > 64 { "name longer than 64 bytes" } else { "name fits" });
+        let v = compare(P, &seed.target, &wire);
+        if !v.ok {
+            l.fail(ctx, idx, v, || case_json(&seed.target, &wire, json!({"member": slot.name, "prefix": 50 + d[2], "window": swr[d[1] as usize].escape_unicode().to_string()})));
+        }
+    });
+
     // (2) every total length 0..=300 of a single repeated width, all name members
     let all_names: Vec<&Slot> = name_slots.iter().collect();
     let rad2 = [all_names.len() as u64, 301, 4];
